@@ -341,6 +341,72 @@ def ck5(p, res):
     return n
 
 
+# ------------------------------------------------------------------ CK-6
+def _canon_atom(a, swap):
+    if isinstance(a, tuple) and len(a) == 3 and a[0] == "p" and a[2] == () and a[1] in swap:
+        return Poly.atom(("p", swap[a[1]], ()))
+    if isinstance(a, tuple) and len(a) >= 3 and a[0] == "f" and isinstance(a[2], tuple):
+        args = [_canon_key(k, swap).key() if (isinstance(k, tuple) and (not k or (isinstance(k[0], tuple) and len(k[0]) == 2 and isinstance(k[0][0], tuple)))) else k for k in a[2]]
+        if a[1] in ("min", "max", "Add", "Mul", "BitAnd", "BitOr") and len(args) == 2:
+            args = sorted(args, key=repr)
+        return Poly.atom((a[0], a[1], tuple(args)) + tuple(a[3:]))
+    return Poly.atom(a)
+
+
+def _canon_key(key, swap):
+    out = Poly()
+    for mono, c in key:
+        term = Poly.const(c)
+        for a in mono:
+            term = term * _canon_atom(a, swap)
+        out = out + term
+    return out
+
+
+def ck6(p, res):
+    """ct x ct multiplication is commutative: the parameters derived from (a, b) - result metadata and the convolution offset handed to the
+    tensor product - are invariant under exchanging the two operands (results of fallible helper calls are treated as symmetric)"""
+    n = 0
+    for f in sorted(p.lib_fns(), key=lambda x: x.uid):
+        if not f.uid.startswith("poulpy_ckks::leveled::default") or f.kind == "Closure":
+            continue
+        if not (f.name.startswith("get_") and f.name.endswith("_ct_params")):
+            continue
+        pn = {v: k for k, v in f.param_names().items()}
+        if "a" not in pn or "b" not in pn:
+            continue
+        callers = [g for g in p.lib_fns() if g.uid.startswith("poulpy_ckks") and any(f.uid in p.targets(g, t) for _, t in g.calls())]
+        if not callers:
+            continue
+        n += 1
+        sym = Sym(f, Flow(f))
+        swap = {pn["a"]: pn["b"], pn["b"]: pn["a"]}
+        ident = {}
+        bad = []
+        checked = []
+        for nm, pl, ai in f.names:
+            if ai is not None or not pl or len(pl) != 1:
+                continue
+            v = sym.local(pl[0])
+            # only values that are functions of the operands
+            k0 = _canon_key(v.key(), ident).key()
+            k1 = _canon_key(v.key(), swap).key()
+            if "'p'" not in repr(k0):
+                continue
+            checked.append(nm)
+            if k0 != k1:
+                bad.append((nm, repr(v)))
+        if bad:
+            res.bad("CK-6", f.pretty, "asymmetric:%s" % ",".join(x[0] for x in bad),
+                    "%s derives `%s` = %s, which changes when the two ciphertext operands are exchanged: a*b and b*a would be computed at different scales although the metadata agrees"
+                    % (f.pretty, bad[0][0], bad[0][1]), site=f.where())
+        elif checked:
+            res.ok("CK-6", {"fn": f.pretty, "symmetric": checked, "callers": len(callers)})
+        else:
+            res.undec("CK-6", "%s: no operand-dependent local" % f.pretty)
+    return n
+
+
 def run(res, tier):
     res.level = "other"
     res.explanation = ("Metadata-write and error-path discipline of the CKKS layer decided on MIR: who may write CKKSMeta, budget/precision subtractions guarded by a dominating comparison of the "
@@ -351,6 +417,7 @@ def run(res, tier):
     res.rule("CK-2", "usize `a - b` on budget/precision values is dominated by a comparison establishing a >= b over the same value numbers")
     res.rule("CK-3", "get_automorphism_key / checked_* / ensure_* results are never unwrapped; the key lookup result reaches an error path")
     res.rule("CK-4", "every `*_into*` operation defines dst.meta.log_delta and dst.meta.log_budget (or delegates dst to a function that does) on every success return")
+    res.rule("CK-6", "the parameter derivation of ct x ct multiplication (result metadata, convolution offset) is invariant under exchanging the operands a and b (min/max commutative, helper results symmetric)")
     res.rule("CK-5", "an `==` fast path followed by `<`/`<=` branches compares the same pair of quantities")
     res.assumptions = ["poulpy-core shape asserts are outside this property", "metadata on Err paths is not required to be untouched"]
     cfgs = ["avx-dev"] if tier == "quick" else ["avx-dev", "ref-dev"]
@@ -367,4 +434,6 @@ def run(res, tier):
         res.floor("CK-4", "out-of-place operations", n4, 25)
         n5 = ck5(p, res)
         res.floor("CK-5", "comparison chains", n5, 2)
+        n6 = ck6(p, res)
+        res.floor("CK-6", "ct x ct parameter derivations", n6, 1)
         res.fn_count += n4
